@@ -300,6 +300,11 @@ def main():
                 elif kind == "copy":
                     opc = "(OCopy %d %s)" % (h, clist(path, cchars))
                     roots.append(copy.copy(target))
+                elif kind == "select" and type(target).__name__ == "GridType" and target._dict and not all(
+                        type(c_).__name__ == "BaseType" for c_ in target._dict.values()):
+                    # (a Grid holds arrays: one that a history has given a Structure or Sequence member is not sub-selected - the
+                    # selection of a Grid hands the members' data over, and a Sequence without data has none to hand over)
+                    continue
                 elif kind == "select" and type(target).__name__ == "GridType" and target._dict:
                     # a sub-selection of a Grid is a new Grid with the chosen members: same id chain, same attributes, nothing
                     # changes in the tree it was taken from (not an operation of the model: compared with the direct oracle only)
